@@ -373,7 +373,8 @@ def floor_C16(ctx, agg):
 
 def run_C15(ctx):
     ctx.run("asm", "eng_thr.c", mode="prefill")
-    ctx.run("so", "eng_thr.c", mode="ro", nshards=1)
+    for lvl in ("native", "avx2", "avx", "sse", "base"):       # library data read-only under several dispatcher outcomes
+        ctx.run("so", "eng_thr.c", mode="ro:" + lvl, nshards=1)
     ctx.run("asm", "eng_thr.c", mode="cold")
     ctx.run("c-tsan", "eng_thr.c", mode="threads", nshards=1, env_extra={"TSAN_OPTIONS": "halt_on_error=0:exitcode=0:report_signal_unsafe=0"})
     if ctx.thorough:
@@ -385,7 +386,7 @@ def cov_C15(ctx, agg):
     st = agg.stats
     return {"rule": "11 API scenarios (one-shot and streaming compression, decompression, table creation, dictionaries, erasure code, checksums/zero detect, RAID, headers, reuse histories for deflate and inflate) x up to 160 parameter variants; (e) each variant run 10 times: context / level_buf / output / output structs pre-filled with 00, FF, A5, random bytes, 32-bit words of 9, at two different addresses; reuse histories {use,reset,reuse keeping user fields | use,reset,re-set fields | use,init,reuse} compared with a fresh context; (a) 16 threads with independent contexts and shared read-only inputs after every writable page of libisal.so has been made read-only; (b) first calls raced from 2/4/16 threads in fresh processes; (c) the threaded workload on the all-C build under ThreadSanitizer; distinct = distinct (scenario, variant, repetition)",
             "explanation": "digest of everything observable (output bytes, return codes, totals, final states, output structs) must be identical across prefills, addresses, reuse histories, threads and serial execution; a write to library-owned data after warm-up faults",
-            "threads": int(st.get("threads", 0)), "library_pages_made_read_only": int(st.get("library_pages_made_read_only", 0)), "cold_start_processes": int(st.get("cold_start_processes", 0)),
+            "threads": int(st.get("threads", 0)), "library_pages_made_read_only": int(st.get("library_pages_made_read_only", 0)), "cold_start_processes": int(st.get("cold_start_processes", 0)), "direct_kernel_variant_calls_under_protection": int(st.get("direct_kernel_variant_calls_under_protection", 0)), "cpu_levels_with_read_only_library_data": sorted(agg.sets.get("cpu_levels", [])),
             "scenario_runs": dict(sorted(agg.cnts.get("scenario_runs", {}).items())), "tsan_reports": int(st.get("tsan_reports", 0))}
 
 
